@@ -124,7 +124,7 @@ func coqUpload(p *program, o *observation) (string, bool) {
 		if !seen[c] {
 			seen[c] = true
 			k := pad512(c)
-			tab = append(tab, hk.CoqPair(hk.CoqBytes(k), hk.CoqStr(http.DetectContentType(k))))
+			tab = append(tab, hk.CoqPair(hk.CoqStr(c), hk.CoqStr(http.DetectContentType(k)))) // keyed by the content; Coq pads
 		}
 	}
 	addTab("")
